@@ -5,6 +5,7 @@ import LP.Props.C20HSet
 import LP.Props.C20HSetProbe
 import LP.Props.C20HSetRemove
 import LP.Props.C20HSetRefine
+import LP.Props.C20HSetIntersect
 #print axioms LP.SpecSet.C20_spec_insert
 #print axioms LP.SpecSet.C20_spec_remove
 #print axioms LP.SpecSet.C20_spec_size
@@ -53,3 +54,10 @@ import LP.Props.C20HSetRefine
 #print axioms LP.HSet.C20_hset_answers
 #print axioms LP.HSet.C20_hset_contains
 #print axioms LP.HSet.C20_hset_enumeration
+#print axioms LP.HSet.shiftBack_src
+#print axioms LP.HSet.removeAt_step
+#print axioms LP.HSet.intersectLoop_ok
+#print axioms LP.HSet.intersect_ok
+#print axioms LP.HSet.step_inter
+#print axioms LP.HSet.C20_hset_refines2
+#print axioms LP.HSet.C20_hset_observers2
